@@ -4,6 +4,7 @@ from typing import overload
 import inspect
 
 import beartype.typing as btyping
+import jax
 import jax.numpy as jnp
 import jax.tree_util as jtu
 import jaxtyping as jtyping
@@ -2614,6 +2615,8 @@ class CondTr(Generic[X, R], Trace[X, R]):
         return self.gen_fn
 
     def get_choices(self) -> X:
+        if jnp.ndim(self.check):  # vectorised trace (built under Vmap/Scan): select lane by lane
+            return jax.vmap(CondTr.get_choices)(self)
         chm, chm_ = map(get_choices, self.trs)
 
         # Use merge with check parameter for conditional selection
@@ -2622,6 +2625,8 @@ class CondTr(Generic[X, R], Trace[X, R]):
 
     def get_fixed_choices(self) -> X:
         """Get choices preserving Fixed wrappers."""
+        if jnp.ndim(self.check):
+            return jax.vmap(CondTr.get_fixed_choices)(self)
         chm, chm_ = map(lambda tr: tr.get_fixed_choices(), self.trs)
 
         # Use merge with check parameter for conditional selection
@@ -2632,9 +2637,13 @@ class CondTr(Generic[X, R], Trace[X, R]):
         return (self.check, *self.trs[0].get_args())
 
     def get_retval(self) -> R:
+        if jnp.ndim(self.check):
+            return jax.vmap(CondTr.get_retval)(self)
         return jnp.where(self.check, *map(get_retval, self.trs))
 
     def get_score(self) -> Score:
+        if jnp.ndim(self.check):  # branch scores are per lane: select per lane, then sum
+            return jnp.sum(jax.vmap(CondTr.get_score)(self))
         return jnp.where(self.check, *map(get_score, self.trs))
 
 
